@@ -101,6 +101,11 @@ class DisjointUnion(Constructor[CombinatorialClassType, CombinatorialObjectType]
                     subs[child] *= sympy.var(parent)
                 else:
                     subs[child] = sympy.var(parent)
+            # a parameter of the child that no parameter of the parent is mapped to
+            # is summed out by get_terms: its variable is set to 1
+            for arg in rhs_func.args[1:]:
+                if isinstance(arg, sympy.Symbol) and arg.name not in subs:
+                    subs[arg.name] = sympy.Integer(1)
             res += rhs_func.subs(
                 subs,
                 simultaneous=True,
